@@ -52,6 +52,15 @@ def run_echsx(root, vtodo_text, workdir, args=("-v",), timescale=None, timeout=6
     return r
 
 
+def spawn_argv(line):
+    """SPAWN path [a0] [a1] ... -> (path, [args]) with the shim's %xx escapes undone"""
+    m = re.match(r"(?:SPAWN|MAILER) ?(\S*)((?: \[[^\]]*\])*)$", line)
+    if not m:
+        return None, []
+    args = [re.sub(r"%([0-9a-f]{2})", lambda x: chr(int(x.group(1), 16)), a) for a in re.findall(r"\[([^\]]*)\]", m.group(2))]
+    return m.group(1), args
+
+
 def jfield(journal, name):
     m = re.search(r"^%s:(.*)$" % re.escape(name), journal, re.M)
     return m.group(1) if m else None
